@@ -1,6 +1,8 @@
 package main
 
 import (
+	"io"
+	"path/filepath"
 	"errors"
 	"fmt"
 	"os"
@@ -255,7 +257,7 @@ func execOp(rig *Rig, o Op) Outcome {
 			if m.K == "dir" {
 				ms = append(ms, dirMember(m.A, os.FileMode(m.Perm), mt))
 			} else {
-				ms = append(ms, fileMember(m.A, m.content(), os.FileMode(m.Perm), mt))
+				ms = append(ms, staleMember(m.A, m.content(), os.FileMode(m.Perm), mt, m.N))
 			}
 		}
 		if _, err := rig.WOps.Archive(membersSrc(ms), rig.Cfg.Level, false, false); err != nil {
@@ -266,8 +268,53 @@ func execOp(rig *Rig, o Op) Outcome {
 		if o.Mt != 0 {
 			mt = time.Unix(o.Mt, 0)
 		}
-		if _, err := rig.WOps.Update(membersSrc([]config.FileConfig{fileMember(o.A, o.content(), os.FileMode(o.Perm), mt)}), rig.Cfg.Level, true, false); err != nil {
+		if _, err := rig.WOps.Update(membersSrc([]config.FileConfig{staleMember(o.A, o.content(), os.FileMode(o.Perm), mt, o.N)}), rig.Cfg.Level, true, false); err != nil {
 			return failOut("update", err)
+		}
+	case "hseq":
+		// one handle driven through every kind of call (C10: each of them has to return, whatever fails underneath)
+		h, err := f.OpenFile(o.A, os.O_RDWR|o.Flag, 0o644)
+		if err != nil {
+			return failOut("open", err)
+		}
+		var firstErr error
+		keep := func(err error) {
+			if err != nil && firstErr == nil {
+				firstErr = err
+			}
+		}
+		_, err = io.ReadAll(h)
+		keep(err)
+		_, err = h.Seek(0, io.SeekStart)
+		keep(err)
+		_, err = h.Write(o.content())
+		keep(err)
+		keep(h.Sync())
+		_, err = h.WriteAt([]byte("patched"), 3)
+		keep(err)
+		keep(h.Truncate(int64(o.Len/2 + 5)))
+		_, err = h.Seek(-2, io.SeekEnd)
+		keep(err)
+		_, err = h.WriteString("tail")
+		keep(err)
+		_, err = h.Stat()
+		keep(err)
+		keep(h.Close())
+		if firstErr != nil {
+			return failOut("hseq", firstErr)
+		}
+	case "restore":
+		// Operations.Restore of one entry (or subtree) into a scratch directory
+		dst := filepath.Join(rig.Dir, "restored")
+		_ = os.MkdirAll(dst, 0o777)
+		if err := rig.ROps.Restore(
+			func(path string, mode os.FileMode) (io.WriteCloser, error) {
+				return os.OpenFile(filepath.Join(dst, filepath.Base(path)), os.O_WRONLY|os.O_CREATE|os.O_TRUNC, 0o666)
+			},
+			func(path string, mode os.FileMode) error { return nil },
+			o.A, "", true,
+		); err != nil {
+			return failOut("restore", err)
 		}
 	case "opdelete":
 		if err := rig.WOps.Delete(o.A); err != nil {
